@@ -228,4 +228,111 @@ def specBlock (P : IBMQParams V) (g : NGate) : List (SItem V) :=
 def ibmqSpec (P : IBMQParams V) (queue : List NGate) : Option (List (SItem V)) :=
   if paramsOk P then some (queue.flatMap (specBlock P)) else none
 
+/-! ## the keys of the dictionaries are strings
+
+`int(qubit_key)` for the per-qubit dictionaries, and
+`tuple(map(int, key.replace(" ", "").split("-")))` for the keys of `depolarizing_two_qubit`.
+Strings are lists of characters; `none` = `ValueError`.  Modelled: decimal digits (any number of
+them — qubit indices above 9 are ordinary), spaces, the separator `-`.  Not modelled: the other
+spellings Python's `int` accepts (sign, underscores, non-ASCII digits). -/
+
+/-- value of a decimal digit. -/
+def digitVal (c : Char) : Option Nat :=
+  if '0' ≤ c ∧ c ≤ '9' then some (c.toNat - 48) else none
+
+/-- one step of the left-to-right evaluation of a decimal numeral. -/
+def digitStep (acc : Option Nat) (c : Char) : Option Nat :=
+  match acc, digitVal c with
+  | some a, some d => some (10 * a + d)
+  | _, _ => none
+
+/-- `int(s)` for a string of decimal digits (`none`: empty, or a character that is not a digit). -/
+def parseNat (cs : List Char) : Option Nat :=
+  if cs.isEmpty then none else cs.foldl digitStep (some 0)
+
+/-- `s.split("-")`. -/
+def splitDash : List Char → List (List Char)
+  | [] => [[]]
+  | c :: cs =>
+    if c = '-' then [] :: splitDash cs
+    else
+      match splitDash cs with
+      | [] => [[c]]
+      | h :: t => (c :: h) :: t
+
+/-- `mapM` for `Option` (written out to stay import-free and easy to reason about). -/
+def allSome {β : Type} : List (Option β) → Option (List β)
+  | [] => some []
+  | none :: _ => none
+  | some x :: r => (allSome r).map (x :: ·)
+
+/-- `tuple(map(int, key.replace(" ", "").split("-")))`. -/
+def parsePairKey (key : List Char) : Option (List Nat) :=
+  allSome ((splitDash (key.filter (· ≠ ' '))).map parseNat)
+
+/-- `s.strip()` restricted to spaces. -/
+def stripSpaces (cs : List Char) : List Char :=
+  ((cs.dropWhile (· = ' ')).reverse.dropWhile (· = ' ')).reverse
+
+/-- `int(qubit_key)` (`int` ignores surrounding blanks). -/
+def parseQubitKey (key : List Char) : Option Nat := parseNat (stripSpaces key)
+
+/-- the value of `readout_one_qubit` with string keys. -/
+inductive ROParamS (V : Type)
+  | num (r : V)
+  | dict (items : List (List Char × ROVal V))
+  | other
+
+/-- the parameters dictionary as the user writes it: string keys. -/
+structure IBMQParamsS (V : Type) where
+  dep1 : PVal (List Char) V
+  dep2 : PVal (List Char) V
+  t1 : PVal (List Char) V
+  t2 : PVal (List Char) V
+  gt1 : V
+  gt2 : V
+  ep : V
+  ro : ROParamS V
+
+/-- convert the keys of a dict with `f`; `none` if one of them is rejected. -/
+def parseKeys {K W : Type} (f : List Char → Option K) (l : List (List Char × W)) : Option (List (K × W)) :=
+  allSome (l.map fun e => (f e.1).map fun k => (k, e.2))
+
+def parsePVal {K W : Type} (f : List Char → Option K) : PVal (List Char) W → Option (PVal K W)
+  | .num v => some (.num v)
+  | .dict l => (parseKeys f l).map .dict
+  | .other => some .other
+
+def parseRO : ROParamS V → Option (ROParam V)
+  | .num r => some (.num r)
+  | .dict l => (parseKeys parseQubitKey l).map .dict
+  | .other => some .other
+
+/-- all keys converted (`t2` is looked up by the converted key: the same as the Python's lookup by
+string as long as different key strings of `t1`/`t2` denote different qubits). -/
+def parseParams (P : IBMQParamsS V) : Option (IBMQParams V) :=
+  match parsePVal parseQubitKey P.dep1, parsePVal parsePairKey P.dep2, parsePVal parseQubitKey P.t1,
+      parsePVal parseQubitKey P.t2, parseRO P.ro with
+  | some d1, some d2, some t1, some t2, some ro =>
+    some { dep1 := d1, dep2 := d2, t1 := t1, t2 := t2, gt1 := P.gt1, gt2 := P.gt2, ep := P.ep, ro := ro }
+  | _, _, _, _, _ => none
+
+/-- **`from_dict` on the dictionary as written** (string keys). -/
+def fromDictS (mCls : Nat) (P : IBMQParamsS V) : Option (List (PRule V)) :=
+  match parseParams P with
+  | none => none
+  | some Q => fromDict mCls Q
+
+/-- `from_dict` + `apply` on the dictionary as written. -/
+def ibmqApplyS (mCls : Nat) (P : IBMQParamsS V) (queue : List NGate) : Option (List (SItem V)) :=
+  match parseParams P with
+  | none => none
+  | some Q => ibmqApply mCls Q queue
+
+/-- the documented queue for the dictionary as written. -/
+def ibmqSpecS (P : IBMQParamsS V) (queue : List NGate) : Option (List (SItem V)) :=
+  match parseParams P with
+  | none => none
+  | some Q => ibmqSpec Q queue
+
 end QV.Noise
